@@ -134,7 +134,7 @@ func TestC13_CounterEqualsTotal(t *testing.T) {
 	r := evid.Get(id)
 	evid.Finish(t, r)
 	r.SetRule("rapid: node-lite histories as in C12 (uploads, cached downloads of chunk subsets incl. repeated chunks, pin/unpin at HTTP and service level, reads, deletes, restarts, synchronous GC runs with capacity 1-8 until done) plus a generated mini-program of accesses (read / fetch of a file) executed at the GC interleaving hook between candidate selection and deletion; oracle after every step outside a run: persisted gc size == sum of the gc index counters (also right after a restart, i.e. the recomputed value), and after a run that reports done the total is <= the capacity it ran with; non-trivial = a GC run that evicts, or pin/unpin of a file with repeated chunks; distinct by hash of the case")
-	evid.Checks(30)
+	evid.Checks(70)
 	rapid.Check(t, func(t *rapid.T) {
 		var c kase
 		c.H = nlhist.Gen(t, nlhist.GenOptions{MaxFiles: 4, MaxOps: 16, Kinds: kinds})
